@@ -118,7 +118,18 @@ fn multi_package_project(i: usize) -> (Vec<(String, String)>, String) {
         _ => "let x = Lib::Shape::Box(1, 2); string_println(Lib::twice(x))".to_string(),
     };
     let extra = if two { "\n    string_println(int32_to_string(Lib::via_base(5)) + Lib::base_name());" } else { "" };
-    let main = format!("package Main\nimport Lib\n\nfn main() {{\n    {};{}\n    ()\n}}\n", body, extra);
+    // every third project: Main declares items spelled like Lib's (an enum with the variants in the
+    // other order, a struct with other fields, a function, an impl of Lib's trait for its own type)
+    let clash = i % 3 == 2;
+    let (decls, clash_body) = if clash {
+        (
+            "enum Shape { Box(int32, int32), Dot }\n\nstruct Pebble { extra: int32, w: int32 }\n\nfn area(s: Shape) -> int32 { match s { Shape::Dot => 0 - 1, Shape::Box(a, b) => a + b, } }\n\nimpl Lib::Pretty for Pebble { fn show(self: Pebble) -> string { \"main pebble \" + int32_to_string(self.extra) } }\n\n",
+            "\n    let own = Shape::Box(4, 5);\n    let theirs = Lib::Shape::Box(4, 5);\n    string_println(int32_to_string(area(own)) + \" \" + int32_to_string(Lib::area(theirs)));\n    let mp = Pebble { w: 1, extra: 2 };\n    string_println(Lib::Pretty::show(mp) + \"/\" + Lib::Pretty::show(Lib::Pebble { w: 3 }));\n    let r1 = match theirs { Lib::Shape::Dot => 0, Lib::Shape::Box(a, _) => a, };\n    let r2 = match own { Shape::Dot => 0, Shape::Box(_, b) => b, };\n    let Pebble { w: pw, extra: pe } = mp;\n    string_println(int32_to_string(r1 * 1000 + r2 * 100 + pw * 10 + pe));",
+        )
+    } else {
+        ("", "")
+    };
+    let main = format!("package Main\nimport Lib\n\n{}fn main() {{\n    {};{}{}\n    ()\n}}\n", decls, body, extra, clash_body);
     if two {
         files.push(("Base/lib.gom".to_string(), base.to_string()));
     }
